@@ -77,13 +77,8 @@ def main():
     from androguard.core.analysis.analysis import Analysis
     from androguard.core.dex import DEX
     from androguard.decompiler.decompiler import DecompilerDAD
-    src = job["source"]
-    if src["kind"] == "file":
-        with open(src["path"], "rb") as f:
-            raw = f.read()
-    else:
-        from gen import dexasm
-        raw, _ = dexasm.assemble(src["model"])
+    from gen.source import load_raw
+    raw = load_raw(job["source"])
     d = DEX(raw)
     dx = Analysis(d)
     if job.get("xref", True):
